@@ -3,7 +3,8 @@
    and non-vacuity examples; see notes/C10_cycles.md. *)
 From Coq Require Import List ZArith Arith Lia.
 From Mamba Require Import Invariants.Graph Invariants.DistSpec Invariants.DistRef Invariants.DistRefProofs
-  Invariants.DistModel Invariants.CycleRefProofs Invariants.DistRelabel Invariants.GirthModel Invariants.GirthExact.
+  Invariants.DistModel Invariants.CycleRefProofs Invariants.DistRelabel Invariants.GirthModel Invariants.GirthExact
+  Invariants.CycleICModel Invariants.CycleICProofs Invariants.CycleICOrbit.
 Import ListNotations.
 
 (* Girth: the model of the Go function (BFS from every root but the last two, one distances
@@ -25,3 +26,72 @@ Example C10_girth_model_nonvacuous :
   girth_go (of_edges 7 [(0,1); (1,2); (2,3); (3,4); (4,5); (5,1)]) = Done 5%Z /\
   zgirth (of_edges 7 [(0,1); (1,2); (2,3); (3,4); (4,5); (5,1)]) = 5%Z.
 Proof. split; [apply of_edges_wf | vm_compute; repeat split]. Qed.
+
+(* NumberOfInducedCycles(g, k): the model of the Go function (per component view, explicit-stack
+   depth-first search over induced paths with bannedNeighbours and allowedEnds, r[length+2] +=
+   |Neighbours(last) n allowedEnds|, division by 2L at the end) never panics or runs out of fuel
+   and returns, for every simple graph and every bound k (negative, 0, 1, 2, > n included), the
+   bounded reference vector: entry L = (number of induced-cycle vertex sequences with L
+   vertices) / 2L for 3 <= L <= effective bound, 0 elsewhere (C10_induced_cycles_ref in
+   Props/C10.v ties the sequences to the definition; C10_cycle_orbits below ties the division
+   by 2L to the number of cycles as subgraphs). *)
+Theorem C10_induced_cycles_model : forall g k, wf g ->
+  number_of_induced_cycles_go g k = Done (icycles_bounded_ref g k).
+Proof. exact number_of_induced_cycles_go_correct. Qed.
+Print Assumptions C10_induced_cycles_model.
+
+(* Non-vacuity: a hexagon with the chords 1-4 and 0-2 (one triangle, two induced 4-cycles, one
+   induced 5-cycle), all bounds; two components; the empty graph. *)
+Definition ex_ic : graph := of_edges 6 [(0,1); (1,2); (2,3); (3,4); (4,5); (5,0); (1,4); (0,2)].
+Example C10_induced_cycles_model_nonvacuous :
+  wf ex_ic /\
+  number_of_induced_cycles_go ex_ic (-1) = Done [0; 0; 0; 1; 2; 1; 0] /\
+  number_of_induced_cycles_go ex_ic 4 = Done [0; 0; 0; 1; 2; 0; 0] /\
+  number_of_induced_cycles_go ex_ic 3 = Done [0; 0; 0; 1; 0; 0; 0] /\
+  number_of_induced_cycles_go ex_ic 2 = Done [0; 0; 0; 0; 0; 0; 0] /\
+  number_of_induced_cycles_go ex_ic 9 = Done [0; 0; 0; 1; 2; 1; 0] /\
+  (number_of_induced_cycles_go (of_edges 7 [(0,1); (1,2); (2,0); (3,4); (4,5); (5,6); (6,3)]) (-1) =
+     Done [0; 0; 0; 1; 1; 0; 0; 0]) /\
+  number_of_induced_cycles_go (of_edges 0 []) 0 = Done [0].
+Proof. split; [apply of_edges_wf | vm_compute; repeat split]. Qed.
+
+(* The orbit count behind the division by 2L: entry L of the reference vectors cycles_ref /
+   icycles_ref (hence, by C10_induced_cycles_model, of what the model of NumberOfInducedCycles
+   returns within the bound) is the number of (induced) cycles with L vertices AS SUBGRAPHS:
+   there is a duplicate-free list of (induced) cycle sequences with L vertices, no two with the
+   same set of cyclic edges ([same_cycle]: the same unordered pairs of cyclically consecutive
+   vertices), containing a representative of every (induced) cycle sequence with L vertices, and
+   its length is the entry.  (Each class has exactly 2L sequences: CycleICOrbit.orbit_count.) *)
+Theorem C10_cycle_orbits : forall g L, wf g -> L <= gn g ->
+  exists reps, NoDup reps /\
+    (forall r, In r reps -> is_cycle_seq g r /\ length r = L) /\
+    (forall r r', In r reps -> In r' reps -> same_cycle r r' -> r = r') /\
+    (forall p, is_cycle_seq g p -> length p = L -> exists r, In r reps /\ same_cycle r p) /\
+    nth L (cycles_ref g) 0 = length reps.
+Proof. exact cycles_ref_counts. Qed.
+Print Assumptions C10_cycle_orbits.
+
+Theorem C10_induced_cycle_orbits : forall g L, wf g -> L <= gn g ->
+  exists reps, NoDup reps /\
+    (forall r, In r reps -> is_induced_cycle_seq g r /\ length r = L) /\
+    (forall r r', In r reps -> In r' reps -> same_cycle r r' -> r = r') /\
+    (forall p, is_induced_cycle_seq g p -> length p = L -> exists r, In r reps /\ same_cycle r p) /\
+    nth L (icycles_ref g) 0 = length reps.
+Proof. exact icycles_ref_counts. Qed.
+Print Assumptions C10_induced_cycle_orbits.
+
+(* Non-vacuity: the 4-cycle 0-1-2-3 has 8 vertex sequences, all with the same edges as [0;1;2;3];
+   [0;2;1;3] (a 4-cycle of K4) has other edges. *)
+Example C10_cycle_orbits_nonvacuous :
+  length (cycle_seqs (of_edges 4 [(0,1); (1,2); (2,3); (3,0)]) 4) = 8 /\
+  dihedral [0; 1; 2; 3] = [[0;1;2;3]; [1;2;3;0]; [2;3;0;1]; [3;0;1;2]; [3;2;1;0]; [2;1;0;3]; [1;0;3;2]; [0;3;2;1]] /\
+  uadj [0; 1; 2; 3] 3 0 /\ ~ same_cycle [0; 1; 2; 3] [0; 2; 1; 3] /\
+  nth 4 (cycles_ref (of_edges 4 [(0,1); (1,2); (2,3); (3,0); (0,2); (1,3)])) 0 = 3.
+Proof.
+  split; [vm_compute; reflexivity|]. split; [vm_compute; reflexivity|].
+  split; [left; right; exists [1; 2]; reflexivity|]. split; [|vm_compute; reflexivity].
+  intro H. assert (Hu : uadj [0; 2; 1; 3] 0 2) by (left; left; exists [], [1; 3]; reflexivity).
+  apply H in Hu.
+  destruct Hu as [[[l1 [l2 E]] | [m E]] | [[l1 [l2 E]] | [m E]]];
+    repeat (destruct l1 as [|? l1]; try discriminate E); repeat (destruct m as [|? m]; try discriminate E).
+Qed.
